@@ -118,8 +118,8 @@ def build_cases(ctx, n_stmts, muts, n_soups, n_gram=30):
             sp = lex_spans(d, s_)
             if not sp or len(sp) > 60:
                 continue
-            for ty, a_, b_ in sp:
-                if ty in ('ID', 'DQUOTE_STRING', 'PARAMETER'):       # the shortest spelling of a name in the cover sentences is "x" (mysql: ?)
+            for j_, (ty, a_, b_) in enumerate(sp):
+                if ty in ('ID', 'DQUOTE_STRING', 'PARAMETER') or (j_ > 0 and ty == 'CREATE'):       # the shortest spelling of a name in the cover sentences is "x" (mysql: ?)
                     subs_id += [(s_[:a_] + v_ + s_[b_:], d, 'path-substitution') for v_ in PATHS_]
                     subs_num += [(s_[:a_] + v_ + s_[b_:], d, 'number-substitution') for v_ in NUMS_[:3] + NUMS_[-1:]]
                 elif ty in ('INTEGER', 'FLOAT', 'VARIABLE', 'QUOTE_STRING'):   # ... and of a value is @x
